@@ -382,8 +382,8 @@ func (ka *eccKeyAgreementGM) processServerKeyExchange(config *Config, clientHell
 	digest := ka.hashForServerKeyExchange(clientHello.random, serverHello.random, ka.encipherCert.Raw)
 
 	//verify
-	pubKey, _ := cert.PublicKey.(*ecdsa.PublicKey)
-	if pubKey.Curve != sm2.P256Sm2() {
+	pubKey, isEC := cert.PublicKey.(*ecdsa.PublicKey)
+	if !isEC || pubKey.Curve != sm2.P256Sm2() {
 		return errors.New("tls: sm2 signing requires a sm2 public key")
 	}
 
